@@ -16,8 +16,10 @@ MALFORMED = ["Foo.dsdl", "Foo.1.dsdl", "Foo.1.0.0.0.dsdl", "1.2.Foo.1.0.dsdl", "
              "12.Foo.1.dsdl", "Foo.1,0.dsdl", "Foo.one.zero.dsdl",
              # numeric components that merely start (or end) with digits
              "Foo.1.0rc1.dsdl", "Foo.1x.0.dsdl", "Foo.1.0-draft.dsdl", "7509abc.Foo.1.0.dsdl", "Foo.x1.0.dsdl", "Foo.1.v0.dsdl", "p7509.Foo.1.0.dsdl",
-             "Foo.1.0b.uavcan", "75a09.Foo.1.0.dsdl", "Foo.1e0.0.dsdl", "Foo.0x1.0.dsdl", "Foo.1.0~.dsdl"]
-BAD_DIRS = ["a.b", "x.1", "dot.ted"]
+             "Foo.1.0b.uavcan", "75a09.Foo.1.0.dsdl", "Foo.1e0.0.dsdl", "Foo.0x1.0.dsdl", "Foo.1.0~.dsdl",
+             # hidden entries (editor lock files, AppleDouble files): still files named *.dsdl / *.uavcan under the root
+             ".Status.1.0.dsdl", "._Status.1.0.dsdl", ".7000.Pin.1.0.dsdl", ".Status.1.0.uavcan", ".#Status.1.0.dsdl"]
+BAD_DIRS = ["a.b", "x.1", "dot.ted", ".drafts", ".git", ".hidden_ns"]
 
 # designations of (targets, roots) for read_files; "supported" ones must succeed, "open" ones are checked for soundness only
 DESIGNATIONS = [
@@ -148,6 +150,22 @@ class C15(Check):
                 rargs.append(dict(rargs[0]))
             scn["reads"].append({"op": "rf", "files": files, "roots": rargs, "lookups": [], "key": rng.randrange(1 << 30), "cwd": cwd,
                                  "allow_unreg": True, "des": des})
+        if rng.random() < 0.25 and not scn.get("malformed") and not scn.get("decoy"):
+            # the same root namespace is also contributed from a second directory that is passed as a LOOKUP directory and holds a
+            # (valid, unreferenced) definition with the name and version of one of the definitions that are read - another
+            # file, another port-ID: every returned type still is the one encoded by the path of ITS file under ITS root
+            k = rng.choice(keys)
+            d0 = uni.defs[k]
+            comps = d0["name"].split(".")
+            twin_dir = "w/tw/" + comps[0]
+            service = len(d0["secs"]) == 2
+            tport = rng.choice([p0 for p0 in ([1, 2, 3, 200, 510] if service else [1, 2, 3, 6000, 8190]) if p0 != d0.get("port")])
+            rel = "/".join([twin_dir] + comps[1:-1] + ["%d.%s.%d.%d.dsdl" % (tport, comps[-1], d0["ver"][0], d0["ver"][1])])
+            scn["extra_files"].append([rel, "uint16 twin_only_field\n@sealed\n" + ("---\n@sealed\n" if service else "")])
+            scn["twin_lookup"] = twin_dir
+            for op in scn["reads"]:
+                if op["op"] == "rn" and op["root"]["p"] == roots[uni.root_of[k]]["dir"] or op["op"] == "rf":
+                    op["lookups"] = list(op.get("lookups") or []) + [{"p": twin_dir, "st": rng.choice(["abs", "dd"]), "ty": rng.choice("sp")}]
         return scn
 
     def execute(self, scn: dict) -> Outcome:
